@@ -14,7 +14,23 @@ from tools.translators import gen_c17
 
 PROP = 'C17'
 FINDING = 'F-OPTGUARD-KEYSET'
-FINDING_PATH = 'F-OPTGUARD-MSG-PATH'
+FINDING_PATH = 'F-OPTGUARD-MSG-PATH'      # fixed (b33cf26): a reproducing witness is a VIOLATION
+FINDING_TRI = 'F-OPTGUARD-TRIGRAPH'
+# directory names that are hostile to a C string literal; [0] must build since b33cf26, the others contain trigraphs
+HOSTILE_DIRS = ['we"ird\\dir', 'a??/u', 'x??/"y', "q??'r??)s"]
+# additional type shapes (the core four are always compiled; `always` ones too; the rest rotates by seed in the quick tier)
+EXTRA_ALWAYS = {
+    'demo/Empty.1.0.dsdl': '@sealed\n',
+    'demo/430.Svc.1.0.dsdl': '@sealed\n---\nuint8 r\n@sealed\n',                      # fixed-port service, empty request
+}
+EXTRA_ROTATING = [
+    {'demo/Consts.1.0.dsdl': 'uint8 X = 1\nint16 Y = -2\n@sealed\n'},                  # constants only
+    {'demo/Old.1.0.dsdl': '@deprecated\nuint8 a\n@sealed\n'},                          # deprecated
+    {'demo/7001.Msg.1.0.dsdl': 'uint16 v\n@extent 16\n'},                               # fixed-port message
+    {'demo/Arr.1.0.dsdl': 'C.1.0[2] xs\nB.1.0[<=2] ys\n@sealed\n'},                    # arrays of composites
+    {'demo/sub/deep/N.1.0.dsdl': 'demo.B.1.0 b\nuint8[<=2] t\n@extent 600\n'},         # nested namespace
+    {'other/X.1.0.dsdl': 'uint8 q\n@sealed\n', 'demo/Cross.1.0.dsdl': 'other.X.1.0 x\n@sealed\n'},   # dependency on a second root
+]
 
 MANIFEST = dict(
     technique='Coq proof (list induction over option sets on top of a finite injectivity fact computed by vm_compute over the regenerated '
@@ -224,13 +240,19 @@ def build_plan(facts: dict, rng, tier: str):
         oid = S.add(lang, dict(defaults), [], {}, omit=True, kind='omit')
         pairs.append({'sup': None, 'typ': oid, 'kind': 'omit'})
         # the message branch taken with --embed-auditing-info, with a DSDL path that is hostile to a string literal
-        hid = S.add(lang, dict(defaults), ['--embed-auditing-info'], {}, kind='hostile-path')
-        S.sets[-1]['hostile'] = True
-        pairs.append({'sup': hid, 'typ': hid, 'kind': 'identical-hostile-path'})
-        aid = S.add(lang, dict(defaults), ['--embed-auditing-info', '--target-endianness', 'little'], {}, kind='hostile-path')
-        S.sets[-1]['hostile'] = True
-        S.sets[-1]['intended'] = dict(defaults, target_endianness='little')
-        pairs.append({'sup': hid, 'typ': aid, 'kind': 'single'})
+        for hi in range(1, len(HOSTILE_DIRS) + 1):
+            variants = [([], dict(defaults))]
+            if hi == 1:
+                variants.append((['--target-endianness', 'little'], dict(defaults, target_endianness='little')))
+            ids = []
+            for extra_cli, intended in variants:
+                hid = '%s%03d' % (lang, len(S.sets))     # not through Sets.add: the same CLI is used for every hostile directory
+                S.sets.append({'id': hid, 'lang': lang, 'cli': ['--embed-auditing-info'] + extra_cli, 'overrides': None, 'omit': False,
+                               'intended': intended, 'kind': 'hostile-path %d' % hi, 'hostile': hi})
+                ids.append(hid)
+            pairs.append({'sup': ids[0], 'typ': ids[0], 'kind': 'identical-hostile-path'})
+            if len(ids) > 1:
+                pairs.append({'sup': ids[0], 'typ': ids[1], 'kind': 'single'})
     seen = set()
     out = []
     for p in pairs:
@@ -339,6 +361,44 @@ def run_model(queries: typing.List[str], defs: typing.Sequence[str] = ()) -> typ
 
 
 # ---------------------------------------------------------------------------------------------
+# Option sets that are known not to build on their own, whatever the guard does (C06 territory: inconsistent or documented-as-
+# incompatible option combinations).  (name, predicate over (language, option dict, DSDL has a float field), signature that must
+# occur in the compiler's error messages).  An identical pair that does not build and is in none of these classes is a VIOLATION.
+NONBUILDING_CLASSES = [
+    ('omit_float_serialization_support with a floating-point field (documented: "will result in errors if floating point types are used")',
+     lambda L, o, fl: o.get('omit_float_serialization_support') is True and fl,
+     r'IEEE754|nunavut(Set|Get)F(16|32|64)|[Ff]loat|expression in static assertion is not an integer'),
+    ('container template uses {REBIND_ALLOCATOR} but ctor_convention is "default" (no allocator_type alias is generated)',
+     lambda L, o, fl: L == 'cpp' and 'REBIND_ALLOCATOR' in str(o.get('variable_array_type_template')) and o.get('ctor_convention') == 'default',
+     r'allocator_type'),
+    ('allocator-aware ctor_convention but the container template takes no allocator',
+     lambda L, o, fl: L == 'cpp' and o.get('ctor_convention') != 'default' and 'REBIND_ALLOCATOR' not in str(o.get('variable_array_type_template')),
+     r'allocator|no matching function|template argument|type/value mismatch'),
+    ('allocator_type given but allocator_include does not declare it',
+     lambda L, o, fl: L == 'cpp' and bool(o.get('allocator_type')) and 'pmr' in str(o.get('allocator_type'))
+        and o.get('allocator_include') not in ('<memory_resource>', '"verif_allocator_include.hpp"'),
+     r'incomplete type|polymorphic_allocator|memory_resource|std::pmr'),
+    ('allocator_is_default_constructible=false: nested composites / union alternatives are default-constructed without an allocator '
+     '(C06 candidate, reported to the lead; cetl preset value, not compilable with CETL here)',
+     lambda L, o, fl: L == 'cpp' and o.get('allocator_is_default_constructible') is False and o.get('ctor_convention') != 'default',
+     r'could not convert|no matching function|emplace|default constructor|deleted function'),
+    ('uses-leading-allocator with std::vector (std::vector has no allocator_arg constructor)',
+     lambda L, o, fl: L == 'cpp' and o.get('ctor_convention') == 'uses-leading-allocator' and str(o.get('variable_array_type_template')).startswith('std::vector'),
+     r'no matching function|allocator_arg'),
+    ('{MAX_SIZE} constructor argument with std::vector',
+     lambda L, o, fl: L == 'cpp' and 'MAX_SIZE' in str(o.get('variable_array_type_constructor_args')) and str(o.get('variable_array_type_template')).startswith('std::vector'),
+     r'no matching function|narrowing|initializer|constructor|allocator'),
+]
+
+
+def nonbuilding_class(L: str, o: dict, has_float: bool, errors: typing.List[str]) -> typing.Optional[str]:
+    text = '\n'.join(errors)
+    for name, pred, sig in NONBUILDING_CLASSES:
+        if pred(L, o, has_float) and re.search(sig, text):
+            return name
+    return None
+
+
 def property_oracle(o_s: typing.Optional[list], o_t: list) -> str:
     """the property itself: identical option sets build, different ones are rejected by the assertion"""
     if o_s is None:
@@ -361,7 +421,7 @@ def gen_values(rng, n: int) -> list:
 
 
 def main(chk: core.Check, replay: typing.Optional[str] = None) -> int:
-    if chk.known_entry(FINDING) is None or chk.known_entry(FINDING_PATH) is None:   # fragment not merged into known_findings.json yet
+    if any(chk.known_entry(x) is None for x in (FINDING, FINDING_PATH, FINDING_TRI)):   # fragment not merged into known_findings.json yet
         try:
             with open(os.path.join(core.VERIF, 'known_findings.d', 'C17.json'), encoding='utf-8') as f:
                 chk.known += [e for e in json.load(f)['findings'] if PROP in e['properties'] and chk.known_entry(e['id']) is None]
@@ -395,24 +455,27 @@ def main(chk: core.Check, replay: typing.Optional[str] = None) -> int:
     # what the template scanner sees in this tree: the key-set fingerprint symbol per language (None = not present)
     ks_sym: typing.Dict[str, typing.Optional[str]] = {'c': None, 'cpp': None}
     unless_omit: typing.Dict[str, bool] = {'c': False, 'cpp': False}   # guard_requires_support_header, per language
-    path_raw: typing.Dict[str, bool] = {'c': False, 'cpp': False}      # the messages interpolate the DSDL path unescaped
+    path_raw: typing.Dict[str, bool] = {'c': False, 'cpp': False}      # the path escape chain leaves `?` alone (trigraph ??/)
     try:
         for L_ in ('c', 'cpp'):
             sides = [gen_c17.scan_loop(L_, kd, _gen.read_repo(gen_c17.TEMPLATES[(L_, kd)])) for kd in ('support', 'type')]
             if sides[0]['keyset'] and sides[0]['keyset'] == sides[1]['keyset']:
                 ks_sym[L_] = sides[0]['keyset']
             unless_omit[L_] = bool(sides[1]['unless_omit'])
-            path_raw[L_] = any(e in gen_c17.RAW_PATH_EXPRS for e in sides[1]['msg_exprs'])
+            path_raw[L_] = '?' not in [a_ for a_, _b in sides[1]['path_escape']]   # the escape chain does not neutralise trigraphs
     except Exception:
         pass   # the translator already failed closed on this; reported through `broken`
     chk.coverage['keyset_fingerprint_in_templates'] = {k: bool(v) for k, v in ks_sym.items()}
     chk.coverage['guard_requires_support_header'] = dict(unless_omit)
-    chk.coverage['message_path_escaped'] = {k: not v for k, v in path_raw.items()}
+    chk.coverage['message_path_trigraph_safe'] = {k: not v for k, v in path_raw.items()}
     chk.coverage['main_theorems'] = ['C17_main_c', 'C17_main_cpp']   # unconditional; they stop compiling if a template loses the fingerprint
     try:
         chk.coverage['entry_templates'] = {L_: [list(e) for e in gen_c17.entry_templates(L_)] for L_ in ('c', 'cpp')}
     except Exception as ex:
         chk.coverage['entry_templates'] = 'unavailable: %r' % ex
+    import random as _random
+    random_rot = _random.Random(chk.seed * 7919 + 17)      # type-shape rotation: its own stream, so that the option plan is unchanged
+    doc = None
     sets, pairs = build_plan(facts, chk.rng, chk.tier)
     if replay:
         doc = json.load(open(replay))
@@ -428,8 +491,19 @@ def main(chk: core.Check, replay: typing.Optional[str] = None) -> int:
                 mloc = re.fullmatch(r'"(verif_\w+\.hpp)"', v) if isinstance(v, str) else None
                 if mloc:
                     local_headers[mloc.group(1)] = '#pragma once\n#include <vector>\n#include <memory>\n#if __cplusplus >= 201703L\n#include <memory_resource>\n#endif\n'
-    job = {'scratch': scratch, 'dsdl': DSDL, 'root': 'demo', 'jobs': 6, 'keyset': ks_sym, 'local_headers': local_headers,
-           'sets': [dict({k: s[k] for k in ('id', 'lang', 'cli', 'overrides', 'omit')}, hostile=bool(s.get('hostile')),
+    dsdl = dict(DSDL)
+    dsdl.update(EXTRA_ALWAYS)
+    rot = list(range(len(EXTRA_ROTATING)))
+    if chk.tier == 'quick' and not replay:
+        rot = sorted(random_rot.sample(rot, 2))
+    for i_ in rot:
+        dsdl.update(EXTRA_ROTATING[i_])
+    if replay and 'dsdl' in doc:
+        dsdl = doc['dsdl']
+    roots = ['demo'] + sorted({k.split('/')[0] for k in dsdl} - {'demo'})
+    chk.coverage['type_shapes'] = sorted(dsdl)
+    job = {'scratch': scratch, 'dsdl': dsdl, 'root': 'demo', 'roots': roots, 'hostile_dirs': HOSTILE_DIRS, 'jobs': 6, 'keyset': ks_sym, 'local_headers': local_headers,
+           'sets': [dict({k: s[k] for k in ('id', 'lang', 'cli', 'overrides', 'omit')}, hostile=int(s.get('hostile') or 0),
                          standalone=s['kind'].startswith('base') or s['kind'] == 'omit',
                          std=('c11' if s['lang'] == 'c' else 'c++%d' % max([14] + [STD_RANK.get(s['intended'].get('std'), 14)]
                               + [17 for v in s['intended'].values() if isinstance(v, str) and ('pmr' in v or 'memory_resource' in v)])))
@@ -596,16 +670,19 @@ def main(chk: core.Check, replay: typing.Optional[str] = None) -> int:
         if kf_live:
             chk.report_known(FINDING)
 
-    # 3b'. known finding probe: hostile DSDL path + --embed-auditing-info, identical option sets
+    # 3b'. finding probes on the hostile-path sets (--embed-auditing-info, identical option sets).  Directory 1 (double quote,
+    # backslash) is the witness of the FIXED finding F-OPTGUARD-MSG-PATH: it is judged by the oracle like any other pair.
+    # Directories 2.. contain trigraphs (F-OPTGUARD-TRIGRAPH).
     kfp_live = {'c': False, 'cpp': False}
+    set_by = {s_['id']: s_ for s_ in sets}
     for p in pairs:
-        if p['kind'] == 'identical-hostile-path' and p['id'] in impl['pairs']:
+        if p['kind'] == 'identical-hostile-path' and p['id'] in impl['pairs'] and (set_by[p['typ']].get('hostile') or 0) >= 2:
             r = impl['pairs'][p['id']]
             if r['rc'] != 0 and (r.get('guard_region_errors') or r.get('control_rc') == 0):
                 kfp_live[p['lang']] = True
-    if chk.is_known(FINDING_PATH) and any(kfp_live.values()):
-        chk.report_known(FINDING_PATH)
-    hostile_ids = {s['id'] for s in sets if s.get('hostile')}
+    if chk.is_known(FINDING_TRI) and any(kfp_live.values()):
+        chk.report_known(FINDING_TRI)
+    hostile_ids = {s_['id'] for s_ in sets if (s_.get('hostile') or 0) >= 2}
 
     # 3c. compile verdicts
     distinct = set()
@@ -658,8 +735,8 @@ def main(chk: core.Check, replay: typing.Optional[str] = None) -> int:
         if len(samples) < 8 and (len(samples) % 2 == 0) == guard_silent:
             samples.append({'lang': L, 'support_options': os_, 'type_options': ot_, 'compiler': ('gcc' if L == 'c' else 'g++') + ' -std=' + p['std'],
                             'exit_status': r['rc'], 'failing_assertions': got_failed, 'undeclared': got_undecl})
-        if (p['sup'] in hostile_ids or p['typ'] in hostile_ids) and kfp_live[L] and chk.is_known(FINDING_PATH) and path_raw[L]:
-            # instance of F-OPTGUARD-MSG-PATH: trigger holds (hostile path, auditing info, raw path in the message) and the witness reproduces
+        if (p['sup'] in hostile_ids or p['typ'] in hostile_ids) and kfp_live[L] and chk.is_known(FINDING_TRI) and path_raw[L]:
+            # instance of F-OPTGUARD-TRIGRAPH: trigger holds (trigraph in the path, auditing info, `?` not escaped) and the witness reproduces
             stats['known_finding_instances'] += 1
             continue
         # -- property oracle (falsifier)
@@ -677,6 +754,13 @@ def main(chk: core.Check, replay: typing.Optional[str] = None) -> int:
             elif os_ is not None and r['rc'] != 0 and r.get('control_rc') == 0:
                 viol = 'identical option sets do not build, although the same headers build once the option-guard statements are removed'
             elif guard_silent and r['rc'] != 0 and os_ is not None:
+                cls = nonbuilding_class(L, dict(ot_), any('float' in t for t in dsdl.values()), r.get('errors') or [])
+                if cls is None:
+                    viol = ('identical option sets do not build and the failure is in no known class of self-inconsistent option sets: '
+                            + '; '.join((r.get('errors') or ['?'])[:2]))
+                else:
+                    stats.setdefault('identical_not_building_by_class', {})
+                    stats['identical_not_building_by_class'][cls] = stats['identical_not_building_by_class'].get(cls, 0) + 1
                 stats['identical_pairs_not_building_for_other_reasons'] += 1
                 dflt = dict(facts['options'][L])
                 first_err = next((l for l in r['tail'].splitlines() if ' error: ' in l), '')
@@ -781,20 +865,20 @@ def main(chk: core.Check, replay: typing.Optional[str] = None) -> int:
     elif plumbing:
         chk.violation({'what': 'the generator does not report the option set it was asked for (an option given on the command line / in the '
                                'configuration file does not reach the generated code, or an unrequested one does)', 'case': plumbing[0],
-                       'n_failing': len(plumbing), 'dsdl': DSDL, 'broken': broken}, found_input=True)
+                       'n_failing': len(plumbing), 'dsdl': dsdl, 'broken': broken}, found_input=True)
     elif alone_bad:
         chk.violation({'what': 'a header generated with the default options does not compile on its own (nothing pre-included)', 'case': alone_bad[0],
-                       'n_failing': len(alone_bad), 'dsdl': DSDL, 'broken': broken}, found_input=True)
+                       'n_failing': len(alone_bad), 'dsdl': dsdl, 'broken': broken}, found_input=True)
     elif floor_bad and not replay:
         chk.violation({'what': 'coverage floor not reached: ' + '; '.join(floor_bad[:5]), 'broken': broken}, found_input=False)
     elif bad_oracle:
         c = min(bad_oracle, key=lambda c: sum(1 for k in set(dict(c['support_options'] or [])) | set(dict(c['type_options']))
                                                 if dict(c['support_options'] or []).get(k) != dict(c['type_options']).get(k)))
-        chk.violation(dict(c, what='mixing these two outputs violates the property: ' + c['violation'], dsdl=DSDL, broken=broken,
+        chk.violation(dict(c, what='mixing these two outputs violates the property: ' + c['violation'], dsdl=dsdl, broken=broken,
                            n_failing=len(bad_oracle), coq_error=res.error_text[-800:] if not res.ok else ''), found_input=True)
     elif bad_model:
         chk.violation(dict(bad_model[0], correspondence='Gen/OptGuard.v (compile/rendered/sav/crc32) vs nnvg + compiler', n_disagreements=len(bad_model),
-                           broken=broken, dsdl=DSDL), found_input=False)
+                           broken=broken, dsdl=dsdl), found_input=False)
     elif broken:
         chk.violation({'broken': broken, 'coq_error': res.error_text[-2000:], 'translators': res.translator_msgs,
                        'what': 'proof obligation or model no longer checks; %d compiled pairs on the implementation satisfied the property' % stats['pairs_compiled']},
